@@ -89,11 +89,13 @@ def qv1(ctx: Ctx):
                     outcomes.add(classify(v, vt))
                     if classify(v, vt) == "str(float(v))":
                         f = s.facts
-                        nan_guard = any(k[0] == "call" and k[1][-1] == "isinf" and not fv for k, fv in f.items()) and \
-                            any(k[0] == "call" and k[1][-1] == "isnan" and not fv for k, fv in f.items())
+                        nan_guard = (any(k[0] == "call" and k[1][-1] == "isinf" and not fv for k, fv in f.items()) and
+                                     any(k[0] == "call" and k[1][-1] == "isnan" and not fv for k, fv in f.items())) or \
+                            any(k[0] == "call" and k[1][-1] == "isfinite" and fv for k, fv in f.items())
                 else:
                     cls = v[1][1] if v[0] == "call" and v[1][0] == "builtin" else show(v)
-                    if cls == "ValueError" and any(k[0] == "call" and k[1][-1] in ("isinf", "isnan") and fv for k, fv in s.facts.items()):
+                    if cls == "ValueError" and (any(k[0] == "call" and k[1][-1] in ("isinf", "isnan") and fv for k, fv in s.facts.items()) or
+                                                any(k[0] == "call" and k[1][-1] == "isfinite" and fv is False for k, fv in s.facts.items())):
                         continue      # the nan / inf rejection
                     outcomes.add(cls)
         ctx.instance(rule)
